@@ -275,6 +275,8 @@ func checkC18(c *Check) {
 			"the cookie reader also accepts a cookie that is not named by the filter's own cookie name ("+why+"): another filter's session cookie is honoured")
 	}
 	discoveryCacheKeyRule(c, "C18.R3")
+	transportIsOwn(c, "C18.R3")
+	handlerConfigOwn(c, "C18.R3", R)
 	// each Redis-backed filter talks to the Redis its own URI names (database and credentials included): the client
 	// handed to the store constructor is redis.NewClient of options parsed from this filter's URI, created for this
 	// store — not a client looked up under a coarser key (host:port)
@@ -805,48 +807,7 @@ func checkC19(c *Check) {
 			}
 		}
 	}
-	// the configuration a handler works with is the shared one or a copy made for this very handler: a copy
-	// kept across checks (package-level map, sync.Map, field of a long-lived object) freezes the secret it held
-	if R.NewOIDC != nil && R.OIDCType != nil {
-		var cfgParam *ssa.Parameter
-		for _, p := range R.NewOIDC.Params {
-			if typeID(p.Type()) == idOIDCConfig {
-				cfgParam = p
-			}
-		}
-		nCfg := 0
-		for name, vals := range handlerLiteralFields(R) {
-			for _, v := range vals {
-				if typeID(v.Type()) != idOIDCConfig {
-					continue
-				}
-				nCfg++
-				okSrc := cfgParam != nil
-				what := ""
-				for _, l := range Leaves(v, leafOpts{}) {
-					l = resolveCell(stripConv(l))
-					if cfgParam != nil && l == ssa.Value(cfgParam) {
-						continue
-					}
-					if ta, isTA := l.(*ssa.TypeAssert); isTA {
-						l = resolveCell(stripConv(ta.X))
-					}
-					if ex, isE := l.(*ssa.Extract); isE {
-						l = ex.Tuple
-					}
-					if cl, _, isC := asCall(l); isC && cl.Parent() == R.NewOIDC && strings.HasSuffix(funcID(calleeOf(cl).Obj), "proto.Clone") &&
-						resolveCell(stripConv(cl.Common().Args[0])) == ssa.Value(cfgParam) {
-						continue
-					}
-					okSrc = false
-					what = descDepth(l, 3)
-				}
-				c.Obl(okSrc, "C19.R5", "handler-config-is-shared-or-own-copy/"+name, P.Pos(R.NewOIDC.Pos()), "the handler's configuration is the constructor's parameter or proto.Clone of it made in this call",
-					"the handler's configuration can be "+what+": a copy that outlives the check keeps the client secret it was made with, later rotations never reach the token requests")
-			}
-		}
-		c.Obl(nCfg >= 1, "C19.R5", "handler-config-field", P.Pos(R.NewOIDC.Pos()), "the handler literal stores its configuration", "no configuration field found in the handler literal (anchor lost)")
-	}
+	handlerConfigOwn(c, "C19.R5", R)
 	c.Obl(cached == "", "C19.R5", "no-cached-secret", "-", "no own struct field is assigned from GetClientSecret()", "the client secret is cached in "+cached+": a later reconcile would not reach requests built from the cached copy")
 }
 
@@ -937,4 +898,54 @@ func handlerLiteralFields(R *Roles) map[string][]ssa.Value {
 		}
 	}
 	return out
+}
+
+// handlerConfigOwn: the configuration an OIDC handler works with is the one it was constructed for — the
+// constructor's parameter or a proto.Clone of it made in this very call. Filed under C19.R5 (a kept copy
+// freezes the secret) and C03.R4 / C18.R3 (a copy shared between handlers hands one filter's client id,
+// callback and cookie prefix to another).
+func handlerConfigOwn(c *Check, rule string, R *Roles) {
+	P := c.P
+	// the configuration a handler works with is the shared one or a copy made for this very handler: a copy
+	// kept across checks (package-level map, sync.Map, field of a long-lived object) freezes the secret it held
+	if R.NewOIDC != nil && R.OIDCType != nil {
+		var cfgParam *ssa.Parameter
+		for _, p := range R.NewOIDC.Params {
+			if typeID(p.Type()) == idOIDCConfig {
+				cfgParam = p
+			}
+		}
+		nCfg := 0
+		for name, vals := range handlerLiteralFields(R) {
+			for _, v := range vals {
+				if typeID(v.Type()) != idOIDCConfig {
+					continue
+				}
+				nCfg++
+				okSrc := cfgParam != nil
+				what := ""
+				for _, l := range Leaves(v, leafOpts{}) {
+					l = resolveCell(stripConv(l))
+					if cfgParam != nil && l == ssa.Value(cfgParam) {
+						continue
+					}
+					if ta, isTA := l.(*ssa.TypeAssert); isTA {
+						l = resolveCell(stripConv(ta.X))
+					}
+					if ex, isE := l.(*ssa.Extract); isE {
+						l = ex.Tuple
+					}
+					if cl, _, isC := asCall(l); isC && cl.Parent() == R.NewOIDC && strings.HasSuffix(funcID(calleeOf(cl).Obj), "proto.Clone") &&
+						resolveCell(stripConv(cl.Common().Args[0])) == ssa.Value(cfgParam) {
+						continue
+					}
+					okSrc = false
+					what = descDepth(l, 3)
+				}
+				c.Obl(okSrc, rule, "handler-config-is-shared-or-own-copy/"+name, P.Pos(R.NewOIDC.Pos()), "the handler's configuration is the constructor's parameter or proto.Clone of it made in this call",
+					"the handler's configuration can be "+what+": a copy that outlives the check keeps the client secret it was made with, later rotations never reach the token requests")
+			}
+		}
+		c.Obl(nCfg >= 1, rule, "handler-config-field", P.Pos(R.NewOIDC.Pos()), "the handler literal stores its configuration", "no configuration field found in the handler literal (anchor lost)")
+	}
 }
